@@ -114,7 +114,7 @@ theorem step_iterCtor {s : State} (hi : Inv' s) (dst : Nat) (w : IterCtor) (h : 
   split
   · exact hi
   · rename_i hd
-    have hs := runIterCtor_spec s.mem true w h sc
+    have hs := runIterCtor_shape s.mem true w h sc
     split
     · rename_i m hv hc
       rw [hc] at hs
